@@ -120,9 +120,10 @@ func refusesLeaders(w *world, store uint64, src string) string {
 	if sd == nil {
 		return ""
 	}
-	switch {
-	case sd.State == stReject:
+	if rej, _ := w.rejects(sd); rej {
 		return "reject-leader-label"
+	}
+	switch {
 	case sd.State == stPaused:
 		return "leader-transfer-paused"
 	case w.Evict == store:
@@ -164,6 +165,7 @@ func judgeOp(s *stats, c *opCase) verdict {
 		if sd.State != stUp {
 			size += 300
 		}
+		size += 20 * len(sd.Labels)
 		if sd.Engine != "" {
 			size += 200
 		}
@@ -174,6 +176,7 @@ func judgeOp(s *stats, c *opCase) verdict {
 	if c.W.LocationLabels {
 		size += 500
 	}
+	size += 150 * len(c.W.RejectLeader)
 	fail := func(key, what string, at int) {
 		v.Failed = true
 		if old := s.findings[key]; old != nil && old.Size <= size {
@@ -225,7 +228,11 @@ func judgeOp(s *stats, c *opCase) verdict {
 			}
 			if why := refusesLeaders(c.W, x.ToStore, c.Src); why != "" {
 				// not blocking: the store executes the transfer, the replay goes on
-				fail("leader-to-store-refusing-leaders:"+why+":"+c.Src, fmt.Sprintf("step %d (%s) moves the leader to store %d which refuses leaders (%s)", i, st, x.ToStore, why), i)
+				detail := why
+				if _, which := c.W.rejects(sd); which != "" {
+					detail += ": store labels " + fmt.Sprint(sd.allLabels()) + " match reject-leader " + which
+				}
+				fail("leader-to-store-refusing-leaders:"+why+":"+c.Src, fmt.Sprintf("step %d (%s) moves the leader to store %d which refuses leaders (%s)", i, st, x.ToStore, detail), i)
 			}
 			if !sd.isUp() {
 				// the statement lists what "refuses leaders" means; a store out of service is not in that list: counted only
